@@ -85,6 +85,21 @@ func c10Gen(t *rapid.T) c10Case {
 			c.History = append(c.History, worldGenReq(t, c.Snap, c10HistoryKinds))
 		}
 	}
+	// a shape the plain draw rarely reaches: many kept revisions (large retain), then a
+	// small retain, then a refresh to a kept revision in the middle - the refresh
+	// garbage-collects revisions that sit before the target
+	if c.Final.Op != "install" && rapid.IntRange(0, 9).Draw(t, "deep-gc") == 0 {
+		c.History = []worldReq{worldGenReq(t, c.Snap, []string{"install"}), {Op: "set-retain", Snap: c.Snap, Retain: 5}}
+		k := rapid.IntRange(3, 4).Draw(t, "deep-n")
+		for i := 0; i < k; i++ {
+			c.History = append(c.History, worldGenReq(t, c.Snap, []string{"refresh"}))
+		}
+		if rapid.IntRange(0, 2).Draw(t, "deep-revert") == 0 {
+			c.History = append(c.History, worldGenReq(t, c.Snap, []string{"revert", "revert-to"}))
+		}
+		c.History = append(c.History, worldReq{Op: "set-retain", Snap: c.Snap, Retain: rapid.SampledFrom([]int{2, 2, 3}).Draw(t, "deep-retain")})
+		c.Final = worldGenReq(t, c.Snap, []string{"refresh-kept", "refresh-kept", "refresh-kept", "refresh"})
+	}
 	// configuration written between operations, so that per-revision snapshots differ
 	if len(c.History) >= 2 {
 		for _, pos := range []int{1, len(c.History) - 1} {
@@ -651,6 +666,9 @@ func c10Run(c *check.C, cs c10Case) (verifkit.Outcome, error) {
 	}
 	if gcSeen {
 		o.Labels = append(o.Labels, "gc-before-failure")
+		if label == "refresh-kept" {
+			o.Labels = append(o.Labels, "refresh-kept-with-gc")
+		}
 	}
 	if first.Config != "" {
 		o.Labels = append(o.Labels, "with-config")
